@@ -13,10 +13,8 @@ where
 {
     buf.resize(BGZF_HEADER_SIZE, 0);
 
-    match reader.read_exact(buf) {
-        Ok(()) => {}
-        Err(ref e) if e.kind() == io::ErrorKind::UnexpectedEof => return Ok(None),
-        Err(e) => return Err(e),
+    if !read_exact_or_eof(reader, buf)? {
+        return Ok(None);
     }
 
     // SAFETY: `buf.len() == BGZF_HEADER_SIZE >= mem::size_of::<u16>()`.
@@ -34,6 +32,38 @@ where
     reader.read_exact(&mut buf[BGZF_HEADER_SIZE..])?;
 
     Ok(Some(()))
+}
+
+// Fills the buffer, or returns `false` if the stream is at EOF. A partially filled buffer is an
+// error (a truncated header) rather than a clean EOF.
+fn read_exact_or_eof<R>(reader: &mut R, mut buf: &mut [u8]) -> io::Result<bool>
+where
+    R: Read,
+{
+    let mut bytes_read = 0;
+
+    while !buf.is_empty() {
+        match reader.read(buf) {
+            Ok(0) => break,
+            Ok(n) => {
+                buf = &mut buf[n..];
+                bytes_read += n;
+            }
+            Err(ref e) if e.kind() == io::ErrorKind::Interrupted => {}
+            Err(e) => return Err(e),
+        }
+    }
+
+    if buf.is_empty() {
+        Ok(true)
+    } else if bytes_read == 0 {
+        Ok(false)
+    } else {
+        Err(io::Error::new(
+            io::ErrorKind::UnexpectedEof,
+            "failed to fill whole buffer",
+        ))
+    }
 }
 
 fn split_frame(buf: &[u8]) -> io::Result<(&HeaderBuf, &[u8], &TrailerBuf)> {
